@@ -55,10 +55,10 @@ func genC08(cfg Config, emit Emit) error {
 		kinds: []string{"none", "none", "wrongkey", "tamper", "aud", "resource", "ability", "expired", "revoke", "policy", "decoys", "permute", "missing", "nonowner", "case", "nearmiss", "didurl"}}
 	genWorlds(cfg, n, o, func(w *AWorld, class string) {
 		r := cfg.Rng
-		res := []string{"ok", "okfx", "err"}
-		w.Services = []ASvc{{Can: w.Desc.Can, Result: res[r.Intn(3)]}}
+		res := []string{"ok", "okfx", "err", "okjoin"}
+		w.Services = []ASvc{{Can: w.Desc.Can, Result: res[r.Intn(4)]}}
 		if r.Intn(2) == 0 {
-			w.Services = append(w.Services, ASvc{Can: "other/thing", Result: res[r.Intn(3)]})
+			w.Services = append(w.Services, ASvc{Can: "other/thing", Result: res[r.Intn(4)]})
 		}
 		if r.Intn(8) == 0 {
 			w.Services = w.Services[1:] // nobody handles the main ability
@@ -143,6 +143,8 @@ func (cw *CWorld) methodOptions(log *runLog, calls *[]handlerCall, mu *sync.Mute
 					return okOut{}, nil, fmt.Errorf("handler failed")
 				case "okfx":
 					return okOut{7}, fx.NewEffects(fx.WithFork(fx.FromLink(dummyLink(4242)))), nil
+				case "okjoin":
+					return okOut{7}, fx.NewEffects(fx.WithJoin(fx.FromLink(dummyLink(4243)))), nil
 				}
 				return okOut{7}, nil, nil
 			})))
@@ -220,10 +222,21 @@ func (cw *CWorld) serveBatch(srv server.ServerView, calls *[]handlerCall) (statu
 	if cw.channel != nil {
 		ch = cw.channel
 	}
-	conn, err := client.NewConnection(cw.P[w.Authority].did, ch)
-	if err != nil {
-		return nil, []string{"connection:" + err.Error()}
+	cw.connMu.Lock()
+	if cw.conns == nil {
+		cw.conns = map[transport.Channel]client.Connection{}
 	}
+	conn, have := cw.conns[ch]
+	if !have {
+		var err error
+		conn, err = client.NewConnection(cw.P[w.Authority].did, ch)
+		if err != nil {
+			cw.connMu.Unlock()
+			return nil, []string{"connection:" + err.Error()}
+		}
+		cw.conns[ch] = conn
+	}
+	cw.connMu.Unlock()
 	var invs []invocation.Invocation
 	for _, id := range w.Invs {
 		if cw.phase == "permissive" && cw.Full != nil {
@@ -260,6 +273,16 @@ func (cw *CWorld) serveBatch(srv server.ServerView, calls *[]handlerCall) (statu
 			problems = append(problems, fmt.Sprintf("receipt for %d not issued by the server", id))
 		}
 		st := result.MatchResultR1(rc.Out(), func(o ipld.Node) string { return "ok" }, func(x ipld.Node) string { return failureName(x) })
+		// the effects the receipt reports: those the handler returned on success, none otherwise
+		nf, nj := len(rc.Fx().Fork()), 0
+		if rc.Fx().Join() != (fx.Effect{}) {
+			nj = 1
+		}
+		if st == "ok" {
+			st += fmt.Sprintf("+f%dj%d", nf, nj)
+		} else if nf+nj > 0 {
+			st += fmt.Sprintf("+stray-effects-f%dj%d", nf, nj)
+		}
 		statuses = append(statuses, st)
 	}
 	return statuses, problems
